@@ -68,6 +68,13 @@ def promoted_rvalue(fn, const):
     if const is None or "promoted" not in const:
         return None
     pr = fn.raw.get("promoted", [])
+    owner = const.get("named")
+    if owner:
+        # a promoted body of another function (code spliced in by inline.view keeps naming its own promoteds)
+        from .facts import norm_path
+        g = fn.prog.fns.get(norm_path(owner))
+        if g is not None and g.path != fn.path:
+            pr = g.raw.get("promoted", [])
     i = const["promoted"]
     if i >= len(pr):
         return None
@@ -88,6 +95,30 @@ def promoted_rvalue(fn, const):
         else:
             return rv
     return rv
+
+
+
+def const_char_set(fn, op):
+    """characters of a constant `[char; N]` / `&[char]` / `char` search pattern (through `[..]`, `as_slice`, deref); empty
+    when the operand is anything else"""
+    out = set()
+    os_ = origins(fn, op, through_calls=lambda k: 0 if (k.name.endswith("::index") or k.name.endswith("::as_slice")
+                                                         or k.name.endswith("::deref")) else None)
+    for o in os_:
+        if o.kind != "const" or o.const is None:
+            return set()
+        rv = promoted_rvalue(fn, o.const)
+        if rv is not None and rv.get("k") == "agg":
+            for x in rv.get("ops", []):
+                c = x.get("c")
+                if c is None or "int" not in c or c.get("ty") != "char":
+                    return set()
+                out.add(int(c["int"]))
+        elif "int" in o.const and o.const.get("ty") == "char":
+            out.add(int(o.const["int"]))
+        else:
+            return set()
+    return out
 
 
 class Origin:
@@ -494,6 +525,12 @@ def guard_facts(prog, fn, bb):
             if cd.call.name.endswith("::ne"):
                 truth = not truth
             out.append(("call", cd.call.name, truth, cd.call))
+            # `x == Enum::Variant` written with `==` instead of `matches!`: the same fact as a one-variant `matches`
+            ee = enum_eq(fn, cd)
+            if ee is not None:
+                adt = (cd.call.self_ty or {}).get("adt")
+                if adt in prog.adts:
+                    out.append(("matches", adt, frozenset([ee[0]]), truth, sb))
         elif cd.kind == "bin":
             out.append(("bin", cd.rv["op"], truth, cd.rv))
         elif cd.kind == "local":
